@@ -1415,7 +1415,9 @@ func (cs *ConsensusState) addProposalBlockPart(height int64, part *types.Part, v
 		return false, nil // TODO: bad peer? Return error?
 	}
 
-	added, err = cs.ProposalBlockParts.AddPart(part, verify)
+	// Our own parts are verified too: by the time they come off the internal queue
+	// the part set may have been replaced by the one of a block being committed.
+	added, err = cs.ProposalBlockParts.AddPart(part, true)
 	if err != nil {
 		return added, err
 	}
